@@ -60,6 +60,9 @@ Definition wfy_body (c : cmd) (i : invy) : bool :=
       wfx_items c PSValuesDone 1 its && is_done (items_pst c PSValuesDone 1 its)
       && negb (is_set s_dont_delimit_trailing c)
       && wfx_tva c (items_pos c 1 its) vs
+  | YHyp its vs =>
+      wfx_items c PSValuesDone 1 its && is_done (items_pst c PSValuesDone 1 its)
+      && wfx_hyp c (items_pos c 1 its) vs
   end.
 Lemma wfy_inv_body c i : wfy_inv c i = convx c && negb (is_set s_ignore_errors c) && wfy_body c i.
 Proof. destruct i; reflexivity. Qed.
